@@ -144,6 +144,35 @@ func ruleC11Wire(e *Env) {
 	if newFn != nil {
 		sums[newFn.String()] = newSummary(a)
 	}
+	// FromTime(time.Date(y, m, d, …)) on in-range components is the same construction
+	fromTime := func(recvFirst bool) pred.Summary {
+		return func(ev *pred.Evaluator, args []pred.Val) (pred.Val, error) {
+			t := args[len(args)-1]
+			term, ok := t.(pred.Term)
+			if !ok || term.Fn != "time.Date" || len(term.Args) < 3 {
+				return nil, &pred.Undecided{Reason: "FromTime applied to something other than time.Date(y, m, d, …)"}
+			}
+			v, err := newSummary(a)(ev, term.Args[:3])
+			if err != nil {
+				return nil, err
+			}
+			if !recvFirst {
+				return v, nil
+			}
+			p, ok := args[0].(pred.Ptr)
+			if !ok || p.Cell == nil {
+				return nil, &pred.Undecided{Reason: "FromTime on an unmodelled receiver"}
+			}
+			p.Cell.V = v
+			return pred.Tuple{}, nil
+		}
+	}
+	if f := e.P.Func("date", "FromTime"); f != nil {
+		sums[f.String()] = fromTime(false)
+	}
+	if f := e.P.Method("date", "Date", "FromTime"); f != nil {
+		sums[f.String()] = fromTime(true)
+	}
 	ev2 := &pred.Evaluator{Prog: e.P.SSA, Oracle: canonOracle{}, Summaries: sums}
 	out2, err := ev2.Eval(ub, []pred.Val{pred.Ptr{Cell: recv}, wire})
 	if err != nil {
@@ -268,8 +297,6 @@ func ruleC11Strict(e *Env) {
 			e.S.Bad(rule, site, construct, "the reader decides ("+got+") without having tested emptiness, version and length", e.Pos(ub), "")
 		case got != want:
 			e.S.Bad(rule, site, construct, "outcome "+got+", documented "+want, e.Pos(ub), "")
-		case want != "decode" && lf.final != "old":
-			e.S.Bad(rule, site, construct, "the receiver is modified ("+lf.final+") although an error is returned", e.Pos(ub), "")
 		default:
 			e.S.Ok(rule, site, construct, "outcome "+want, e.Pos(ub))
 		}
